@@ -504,4 +504,220 @@ theorem front_eq (v : VLA) (hc : 1 ≤ v.count ∧ v.count ≤ 4) (hr : 0 ≤ v.
     rw [this]; rfl
   · rw [hm]; exact maskBytes_eq (bm v) (bm_lt v) _ hn
 
+/-! ### the #tl bytes -/
+
+theorem tlByte_eq (n : Nat) (h : 1 ≤ n ∧ n ≤ 4) : byteOfInt ((n : Int) - 1) = (n - 1).toUInt8 := by
+  have : n = 1 ∨ n = 2 ∨ n = 3 ∨ n = 4 := by omega
+  rcases this with rfl | rfl | rfl | rfl <;> decide
+
+theorem tl_step (l : Layer) (rest : List Layer) (idx : Nat) (cur : UInt8) (done : Bytes) (h : idx < 4) :
+    tlLoop (l :: rest) idx cur done =
+      tlLoop rest (idx + 1) (cur ||| (byteOfInt ((l.rates.length : Int) - 1) <<< (2 * (3 - idx) : Nat).toUInt8)) done := by
+  have : ¬ idx ≥ 4 := by omega
+  simp [tlLoop, this]
+
+theorem tl_wrap (l : Layer) (rest : List Layer) (cur : UInt8) (done : Bytes) :
+    tlLoop (l :: rest) 4 cur done = tlLoop (l :: rest) 0 0 (done ++ [cur]) := by
+  simp [tlLoop]
+
+theorem tl_pack1 : ∀ a : Fin 4,
+    (0 : UInt8) ||| (a.val.toUInt8 <<< (2 * (3 - 0) : Nat).toUInt8) = (64 * a.val).toUInt8 := by decide
+theorem tl_pack2 : ∀ a b : Fin 4,
+    (0 : UInt8) ||| (a.val.toUInt8 <<< (2 * (3 - 0) : Nat).toUInt8) |||
+      (b.val.toUInt8 <<< (2 * (3 - (0 + 1)) : Nat).toUInt8) = (64 * a.val + 16 * b.val).toUInt8 := by decide
+theorem tl_pack3 : ∀ a b c : Fin 4,
+    (0 : UInt8) ||| (a.val.toUInt8 <<< (2 * (3 - 0) : Nat).toUInt8) |||
+      (b.val.toUInt8 <<< (2 * (3 - (0 + 1)) : Nat).toUInt8) |||
+      (c.val.toUInt8 <<< (2 * (3 - (0 + 1 + 1)) : Nat).toUInt8) =
+        (64 * a.val + 16 * b.val + 4 * c.val).toUInt8 := by decide
+theorem tl_pack4 : ∀ a b c d : Fin 4,
+    (0 : UInt8) ||| (a.val.toUInt8 <<< (2 * (3 - 0) : Nat).toUInt8) |||
+      (b.val.toUInt8 <<< (2 * (3 - (0 + 1)) : Nat).toUInt8) |||
+      (c.val.toUInt8 <<< (2 * (3 - (0 + 1 + 1)) : Nat).toUInt8) |||
+      (d.val.toUInt8 <<< (2 * (3 - (0 + 1 + 1 + 1)) : Nat).toUInt8) =
+        (64 * a.val + 16 * b.val + 4 * c.val + d.val).toUInt8 := by decide
+
+/-- temporal layer count − 1 of a well-formed layer, as a 2-bit value -/
+def tlOf (l : Layer) (h : 1 ≤ l.rates.length ∧ l.rates.length ≤ 4) : Fin 4 :=
+  ⟨l.rates.length - 1, by omega⟩
+
+theorem tlLoop_eq : ∀ (L : List Layer) (done : Bytes), L ≠ [] →
+    (∀ l ∈ L, 1 ≤ l.rates.length ∧ l.rates.length ≤ 4) →
+    tlLoop L 0 0 done = done ++ pack2 (L.map (fun l => l.rates.length - 1))
+  | [], _, h, _ => absurd rfl h
+  | [a], done, _, hw => by
+    have ha := hw a (by simp)
+    rw [tl_step _ _ _ _ _ (by omega), tlByte_eq _ ha]
+    simp only [tlLoop, List.map_cons, List.map_nil, pack2]
+    have hp := tl_pack1 (tlOf a ha)
+    simp only [tlOf] at hp
+    rw [hp]
+  | [a, b], done, _, hw => by
+    have ha := hw a (by simp); have hb := hw b (by simp)
+    rw [tl_step _ _ _ _ _ (by omega), tl_step _ _ _ _ _ (by omega), tlByte_eq _ ha, tlByte_eq _ hb]
+    simp only [tlLoop, List.map_cons, List.map_nil, pack2]
+    have hp := tl_pack2 (tlOf a ha) (tlOf b hb)
+    simp only [tlOf] at hp
+    rw [hp]
+  | [a, b, c], done, _, hw => by
+    have ha := hw a (by simp); have hb := hw b (by simp); have hc := hw c (by simp)
+    rw [tl_step _ _ _ _ _ (by omega), tl_step _ _ _ _ _ (by omega), tl_step _ _ _ _ _ (by omega),
+      tlByte_eq _ ha, tlByte_eq _ hb, tlByte_eq _ hc]
+    simp only [tlLoop, List.map_cons, List.map_nil, pack2]
+    have hp := tl_pack3 (tlOf a ha) (tlOf b hb) (tlOf c hc)
+    simp only [tlOf] at hp
+    rw [hp]
+  | a :: b :: c :: d :: r, done, _, hw => by
+    have ha := hw a (by simp); have hb := hw b (by simp); have hc := hw c (by simp)
+    have hd := hw d (by simp)
+    rw [tl_step _ _ _ _ _ (by omega), tl_step _ _ _ _ _ (by omega), tl_step _ _ _ _ _ (by omega),
+      tl_step _ _ _ _ _ (by omega), tlByte_eq _ ha, tlByte_eq _ hb, tlByte_eq _ hc, tlByte_eq _ hd]
+    have hp := tl_pack4 (tlOf a ha) (tlOf b hb) (tlOf c hc) (tlOf d hd)
+    simp only [tlOf] at hp
+    rw [hp]
+    cases r with
+    | nil => simp [tlLoop, pack2]
+    | cons l r' =>
+      have ih := tlLoop_eq (l :: r') (done ++ [(64 * (a.rates.length - 1) + 16 * (b.rates.length - 1) +
+        4 * (c.rates.length - 1) + (d.rates.length - 1)).toUInt8]) (by simp)
+        (fun x hx => hw x (by simp only [List.mem_cons] at hx ⊢; right; right; right; right; exact hx))
+      show tlLoop (l :: r') 4 _ done = _
+      rw [tl_wrap, ih]
+      simp [pack2]
+
+theorem pack2_length : ∀ (l : List Nat), (pack2 l).length = (l.length + 3) / 4
+  | [] => rfl
+  | [_] => by simp [pack2]
+  | [_, _] => by simp [pack2]
+  | [_, _, _] => by simp [pack2]
+  | _ :: _ :: _ :: _ :: r => by
+    have := pack2_length r
+    simp only [pack2, List.length_cons, this]
+    omega
+
+/-! ### bitrates, resolution records, lengths -/
+
+theorem uintOfInt_eq (k : Int) (h : 0 ≤ k ∧ k < 2 ^ 63) : uintOfInt k = k.toNat := by
+  unfold uintOfInt
+  have : k % 18446744073709551616 = k := Int.emod_eq_of_lt h.1 (by omega)
+  rw [this]
+
+theorem encodedRates_flatten (ls : List Layer) (hw : ∀ l ∈ ls, ∀ k ∈ l.rates, 0 ≤ k ∧ k < 2 ^ 63) :
+    (encodedRates ls).flatten = ls.flatMap (fun l => l.rates.flatMap (fun k => writeLeb k.toNat)) := by
+  induction ls with
+  | nil => rfl
+  | cons l ls ih =>
+    have ih' := ih (fun x hx => hw x (by simp [hx]))
+    unfold encodedRates at ih' ⊢
+    simp only [List.flatMap_cons, List.flatten_append, ih']
+    congr 1
+    rw [List.flatMap_def]
+    congr 1
+    apply List.map_congr_left
+    intro k hk
+    rw [uintOfInt_eq k (hw l (by simp) k hk)]
+
+theorem encodedRates_lengths (ls : List Layer) :
+    ((encodedRates ls).map List.length).sum = (encodedRates ls).flatten.length := by
+  rw [List.length_flatten]
+
+theorem resBytes_eq (l : Layer) (h : l.ResWF) : resBytes l = resRecord l := by
+  unfold Layer.ResWF at h
+  unfold resBytes resRecord u16OfInt byteOfInt
+  have e1 : (l.width - 1) % 65536 = l.width - 1 := Int.emod_eq_of_lt (by omega) (by omega)
+  have e2 : (l.height - 1) % 65536 = l.height - 1 := Int.emod_eq_of_lt (by omega) (by omega)
+  have e3 : l.fps % 256 = l.fps := Int.emod_eq_of_lt (by omega) (by omega)
+  rw [e1, e2, e3]
+
+theorem resBytes_length (l : Layer) : (resBytes l).length = 5 := by
+  simp [resBytes, be16]
+
+theorem flatMap_resBytes_length (ls : List Layer) : (ls.flatMap resBytes).length = ls.length * 5 := by
+  induction ls with
+  | nil => rfl
+  | cons l ls ih => simp only [List.flatMap_cons, List.length_append, resBytes_length, ih, List.length_cons]; omega
+
+theorem tdiv_len (n : Nat) : (((n : Int) - 1).tdiv 4 + 1).toNat = (n - 1) / 4 + 1 := by
+  cases n with
+  | zero => decide
+  | succ m =>
+    have : ((m + 1 : Nat) : Int) - 1 = (m : Int) := by omega
+    rw [this, Int.tdiv_eq_ediv_of_nonneg (by omega)]
+    omega
+
+/-! ### assembly -/
+
+theorem fit_exact (b b' : Bytes) (n : Nat) (hb : b = b') (h : n = b.length) : fit n b = .ok b' := by
+  subst h; subst hb; simp [fit]
+
+theorem preprocess_wf (v : VLA) (h : v.WF) : preprocess v.count v.layers [] = none := by
+  obtain ⟨_, _, _, _, _, hs, hw, _⟩ := h
+  rw [preprocess_none_iff]
+  refine ⟨?_, ?_⟩
+  · intro l hl
+    have := hw l hl
+    unfold Layer.WF at this
+    refine ⟨?_, by simp⟩
+    unfold LayerOk; omega
+  · apply List.Pairwise.imp _ hs
+    intro a b hab hsame
+    unfold Layer.before at hab; unfold SameSlot at hsame
+    omega
+
+theorem marshal_eq_encode (v : VLA) (h : v.WF) : marshal v = .ok (encode v) := by
+  have hpre := preprocess_wf v h
+  obtain ⟨hc1, hc4, hr0, hr1, hne, hs, hw, hres⟩ := h
+  have hcount : (decide (v.count ≤ 0) || decide (v.count > 4)) = false := by
+    simp only [Bool.or_eq_false_iff, decide_eq_false_iff_not]; omega
+  have hrid : (decide (v.rid < 0) || decide (v.rid ≥ v.count)) = false := by
+    simp only [Bool.or_eq_false_iff, decide_eq_false_iff_not]; omega
+  have hsp : ∀ l ∈ v.layers, 0 ≤ l.spatial ∧ l.spatial < 4 := by
+    intro l hl; have := hw l hl; unfold Layer.WF at this; omega
+  have htl : ∀ l ∈ v.layers, 1 ≤ l.rates.length ∧ l.rates.length ≤ 4 := by
+    intro l hl; have := hw l hl; unfold Layer.WF at this; omega
+  have hrt : ∀ l ∈ v.layers, ∀ k ∈ l.rates, 0 ≤ k ∧ k < 2 ^ 63 := by
+    intro l hl; have := hw l hl; unfold Layer.WF at this; exact this.2.2.2.2.2.2
+  obtain ⟨f1, f2, f3, f4⟩ := front_eq v ⟨hc1, hc4⟩ ⟨hr0, hr1⟩ hsp
+  have htab := tableOrder_sorted v.layers v.count hs hw
+  have htlb := tlLoop_eq v.layers [] hne htl
+  have hrates := encodedRates_flatten v.layers hrt
+  have hresb : v.hasRes = true → v.layers.flatMap resBytes = v.layers.flatMap resRecord := by
+    intro hh
+    rw [List.flatMap_def, List.flatMap_def]
+    congr 1
+    apply List.map_congr_left
+    intro l hl
+    exact resBytes_eq l (hres hh l hl)
+  have hL : 1 ≤ v.layers.length := by
+    cases hv : v.layers with
+    | nil => exact absurd hv hne
+    | cons a r => simp
+  have hmlen : ((List.range v.count.toNat).map (slMB v.layers)).length = v.count.toNat := by simp
+  simp only [marshal, hcount, hrid, hpre, Bool.false_eq_true, if_false, htab]
+  refine fit_exact _ _ _ ?_ ?_
+  · -- the bytes
+    simp only [encode, hne, if_false, streamMasks, temporalCounts, bitrates, resolutions, f2, f3, f4,
+      htlb, hrates, List.nil_append, decide_eq_true_eq]
+    congr 2
+    cases hh : v.hasRes with
+    | false => simp
+    | true => simp [hresb hh]
+  · -- no surplus byte, no overrun
+    simp only [requiredLen, encodedRates_lengths, tdiv_len, List.length_cons, List.length_append,
+      htlb, List.nil_append, pack2_length, List.length_map]
+    have e1 : ((commonSLBM ((List.range v.count.toNat).map (slMB v.layers)) != 0)) =
+        !(commonSLBM ((List.range v.count.toNat).map (slMB v.layers)) == 0) := rfl
+    rw [e1]
+    have hr5 : (List.map (fun a => (resBytes a).length) v.layers).sum = v.layers.length * 5 := by
+      rw [← List.length_flatMap]; exact flatMap_resBytes_length _
+    cases hcm : (commonSLBM ((List.range v.count.toNat).map (slMB v.layers)) == 0) with
+    | true =>
+      cases hh : v.hasRes with
+      | false => simp [maskBytes_length]; omega
+      | true => simp [maskBytes_length]; omega
+    | false =>
+      cases hh : v.hasRes with
+      | false => simp; omega
+      | true => simp; omega
+
 end Rtp.Model.Vla
